@@ -210,11 +210,22 @@ func repeatOutcomes(r *Rng, m map[string]interface{}, o normOpts, runs int) ([]s
 			k := r.Intn(j + 1)
 			keys[j], keys[k] = keys[k], keys[j]
 		}
-		m2 := make(map[string]interface{}, len(m))
-		for _, k := range keys {
-			m2[k] = m[k]
+		var in interface{}
+		if i%2 == 0 {
+			m2 := make(map[string]interface{}, len(m))
+			for _, k := range keys {
+				m2[k] = m[k]
+			}
+			in = m2
+		} else {
+			// the same entries in interface-keyed maps (what a YAML decoder produces), at every depth
+			m2 := make(map[interface{}]interface{}, len(m))
+			for _, k := range keys {
+				m2[k] = ifaceKeyed(m[k])
+			}
+			in = m2
 		}
-		c, d, _ := newFromObs(m2, o)
+		c, d, _ := newFromObs(in, o)
 		if !seen[c] {
 			seen[c] = true
 			coqs = append(coqs, c)
@@ -222,6 +233,24 @@ func repeatOutcomes(r *Rng, m map[string]interface{}, o normOpts, runs int) ([]s
 		}
 	}
 	return coqs, descs
+}
+
+func ifaceKeyed(t interface{}) interface{} {
+	switch x := t.(type) {
+	case map[string]interface{}:
+		m := make(map[interface{}]interface{}, len(x))
+		for k, v := range x {
+			m[k] = ifaceKeyed(v)
+		}
+		return m
+	case []interface{}:
+		l := make([]interface{}, len(x))
+		for i, v := range x {
+			l[i] = ifaceKeyed(v)
+		}
+		return l
+	}
+	return t
 }
 
 var overlapForms = []map[string]interface{}{
@@ -270,6 +299,92 @@ func genC05(g *Gen, c09 bool) {
 			Tags: []string{"normset", fmt.Sprintf("outcomes=%d", len(coqs))}, Nontrivial: len(flat) > 1})
 	}
 	if c09 {
+		// repeated Unpack (into generic and typed maps) of configs whose sections reference each
+		// other, with defaults that absorb the cycles and several failing settings
+		secs := []string{"p", "q", "s", "t"}
+		for i := 0; i < n/2; i++ {
+			root := map[string]interface{}{}
+			ns := 2 + r.Intn(3)
+			for j := 0; j < ns; j++ {
+				sec := map[string]interface{}{}
+				for _, f := range []string{"host", "port", "x"} {
+					other := secs[r.Intn(ns)]
+					of := []string{"host", "port", "x", "nope"}[r.Intn(4)]
+					switch r.Intn(6) {
+					case 0:
+						sec[f] = fmt.Sprintf("${%s.%s:d%d}", other, of, j)
+					case 1:
+						sec[f] = fmt.Sprintf("${%s.%s}", other, of)
+					case 2:
+						sec[f] = fmt.Sprintf("%s-${%s.%s:${%s.%s:e%d}}", f, other, of, secs[r.Intn(ns)], of, j)
+					case 3:
+						sec[f] = fmt.Sprintf("${%s.%s:?bad %d}", other, of, j)
+					default:
+						sec[f] = fmt.Sprintf("v%d", r.Intn(3))
+					}
+				}
+				root[secs[j]] = sec
+			}
+			if r.P(1, 3) {
+				root["a"] = fmt.Sprintf("${b:%d}", 1)
+				root["b"] = "${a:2}"
+			}
+			opts := []ucfg.Option{ucfg.PathSep("."), ucfg.VarExp}
+			seen := map[string]bool{}
+			var coqs, descs []string
+			for k := 0; k < runs; k++ {
+				c, err := ucfg.NewFrom(root, opts...)
+				if err != nil {
+					break
+				}
+				var d string
+				switch k % 3 {
+				case 0:
+					var m map[string]interface{}
+					err = c.Unpack(&m, opts...)
+					d = descTree(m)
+				case 1:
+					var m map[string]map[string]string
+					err = c.Unpack(&m, opts...)
+					d = fmt.Sprintf("%v", m)
+				default:
+					var m struct {
+						P, Q, S, T map[string]interface{}
+						A, B       string
+					}
+					err = c.Unpack(&m, opts...)
+					d = fmt.Sprintf("%v", m)
+				}
+				var cq string
+				if err != nil {
+					cq, d = coqErr(err), descErr(err)
+				} else {
+					cq = "(OV (VStr " + coqStr(fmt.Sprintf("%d:%s", k%3, d)) + "))"
+				}
+				key := fmt.Sprintf("%d|%s", k%3, cq)
+				if !seen[key] {
+					seen[key] = true
+					coqs = append(coqs, cq)
+					descs = append(descs, fmt.Sprintf("target %d: %s", k%3, d))
+				}
+			}
+			// one outcome per target kind: group by kind
+			for kind := 0; kind < 3; kind++ {
+				var cs, ds []string
+				for j, d := range descs {
+					if strings.HasPrefix(d, fmt.Sprintf("target %d:", kind)) {
+						cs = append(cs, coqs[j])
+						ds = append(ds, d)
+					}
+				}
+				if len(cs) == 0 {
+					continue
+				}
+				g.Add(Case{Coq: fmt.Sprintf("CRepeat %s %s", coqStr("unpack-refs"), coqList(cs)),
+					Desc: map[string]interface{}{"kind": "repeat-unpack-refs", "root": descTree(root), "target": kind, "outcomes": ds},
+					Tags: []string{"repeat-unpack", fmt.Sprintf("outcomes=%d", len(cs))}, Nontrivial: true})
+			}
+		}
 		// C09 also covers merging and unpacking: repeated Merge / Unpack of one input
 		for i := 0; i < n/2; i++ {
 			ta := randMap(r, tc, 0)
